@@ -28,6 +28,12 @@ def norm2(u):
 
 def g_unit(u):
     """integer vector u -> float unit vector u/|u| (one sqrt, one division each)."""
+    u = [int(c) for c in u]
+    m = max(abs(c) for c in u)
+    if m > 1 << 400:
+        # bigint mirror values: drop low bits (relative error < 2^-300) so that the square root fits a float
+        sh = m.bit_length() - 350
+        u = [c // (1 << sh) if c >= 0 else -((-c) // (1 << sh)) for c in u]
     n = math.sqrt(norm2(u))
     return np.array([c / n for c in u], dtype=float)
 
